@@ -2,9 +2,14 @@ open Model
 open Util
 
 (* C17 case lines (written by harness/c17.go):
-   <mode> # <ncols> <nfields> # <out refs> # <pred> # <binding> # <rows> # <stepped obs> [# <e2e obs>]
+   <mode> # <ncols> <nfields> <column names> # <out refs> # <pred> # <binding> # <rows> # <stepped obs> [# <e2e obs>]
+   binding tokens, one per aggregate call of the predicate: t (trigger-only) | b<j> (reads SELECT aggregate j) |
+     wrong:<fn>:<field> (harness: the i-th extracted call is not the i-th call written)
    verdicts:
      chk <clause> ...   the real window's own output violates C17 on this input (extracted checker)
+     chk <clause>_casefold_binding   same, the model (which follows the observed binding) produces the same output,
+                        and the only unfaithful bindings are calls bound to a SELECT aggregate of the same function
+                        over a column whose name differs in letter case only (finding F50)
      diff ...           extracted model and real window disagree
      ok / ok nt         equal; nt = at least one result and at least one row without a result *)
 
@@ -67,18 +72,49 @@ let show_q (v : q option) = match v with
   | None -> "N"
   | Some x -> Printf.sprintf "%d/%d" (Win.int_of_z x.qnum) (int_of_pos x.qden)
 
+(* t -> Some None ; b<j> -> Some (Some j) ; anything else -> None *)
+let bind_of_tok (b : string) : nat option option =
+  if b = "t" then Some None
+  else if String.length b >= 2 && b.[0] = 'b' then
+    (match int_of_string_opt (String.sub b 1 (String.length b - 1)) with
+     | Some j when j >= 0 -> Some (Some (nat_of_int j))
+     | _ -> None)
+  else None
+
+(* how call a (with binding token b) is bound: `Faithful | `Twin (a SELECT aggregate of the same function over a
+   column whose name differs from the call's in letter case only) | `Other *)
+let bind_kind (names : string list) (outs : gw_ref list) (a : gw_ref) (b : string) =
+  match bind_of_tok b with
+  | None -> `Other
+  | Some None -> `Faithful
+  | Some (Some j) ->
+      (match List.nth_opt outs (int_of_nat j) with
+       | None -> `Other
+       | Some o ->
+           if o = a then `Faithful
+           else if o.gr_fn <> a.gr_fn then `Other
+           else (match o.gr_fld, a.gr_fld with
+                 | Some f, Some g ->
+                     (match List.nth_opt names (int_of_nat f), List.nth_opt names (int_of_nat g) with
+                      | Some nf, Some ng when nf <> ng && String.lowercase_ascii nf = String.lowercase_ascii ng -> `Twin
+                      | _, _ -> `Other)
+                 | _, _ -> `Other))
+
 let handle0 (toks : string list) : string =
   match Win.split_hash toks with
-  | [mode] :: [ncols; nf] :: outs :: pred :: bind :: rows :: obs :: rest ->
+  | [mode] :: (_ncols :: nf :: _names) :: outs :: pred :: bind :: rows :: obs :: rest ->
       let nf = int_of_string nf in
       let outs = List.map ref_of_tok outs in
       let nouts = List.length outs in
       let (p, left) = parse_pred pred in
       if left <> [] then "bad predicate-tail" else
-      if List.exists (fun b -> b <> "b" && b <> "t") bind then
+      if List.exists (fun b -> bind_of_tok b = None) bind then
         "diff trigger_calls " ^ String.concat " " bind
       else
-      let cfg = { gc_outs = outs; gc_pred = p; gc_bind = List.map (fun b -> b = "b") bind } in
+      let gbind = List.map (fun b -> match bind_of_tok b with Some x -> x | None -> None) bind in
+      let cfg = { gc_outs = outs; gc_pred = p; gc_bind = gbind } in
+      (* handle (below) lets only faithful and case-twin bindings through *)
+      let unfaithful = not (gw_bind_okb outs (gw_calls p) gbind) in
       let h = parse_rows nf rows in
       let ob = parse_obs nouts obs in
       let bad_val = List.exists (fun (_, k, vs) -> List.exists (fun v -> v = "bad" || v = "missing") vs
@@ -89,15 +125,17 @@ let handle0 (toks : string list) : string =
       let per_row = List.mapi (fun i _ -> List.map res_of (List.filter (fun (j, _, _) -> j = string_of_int i) ob)) h in
       let stray = List.exists (fun (j, _, _) -> (try int_of_string j >= List.length h with _ -> true)) ob in
       if stray then "chk one_result_per_row result-without-row" else
+      let m = gw_run0 cfg h in
+      let agree = List.for_all2 (fun mo o ->
+          match mo, o with
+          | None, [] -> true
+          | Some (k, vs), [(k', vs')] -> gw_key_eqb k k' && gw_all_close vs vs'
+          | _, _ -> false) m per_row in
       (match chk_C17_engine cfg h per_row with
-       | Some cl -> Printf.sprintf "chk %s" (string_of_clause cl)
+       | Some cl ->
+           if unfaithful && agree then Printf.sprintf "chk %s_casefold_binding" (string_of_clause cl)
+           else Printf.sprintf "chk %s" (string_of_clause cl)
        | None ->
-           let m = gw_run0 cfg h in
-           let agree = List.for_all2 (fun mo o ->
-               match mo, o with
-               | None, [] -> true
-               | Some (k, vs), [(k', vs')] -> gw_key_eqb k k' && gw_all_close vs vs'
-               | _, _ -> false) m per_row in
            if not agree then
              let first = ref (-1) in
              List.iteri (fun i (mo, o) ->
@@ -127,18 +165,30 @@ let handle0 (toks : string list) : string =
                     if fired && quiet then "ok nt" else "ok"))
   | _ -> "bad line"
 
-(* If the implementation bound the predicate's aggregate calls differently from the model (a "wrong:..." bind
-   token), the implementation's output is still judged by the spec on the predicate as written: a wrong
-   binding that changes a decision is reported with the failing input, not only as a disagreement. *)
+(* If the implementation extracted other calls than those written ("wrong:..."), or bound a call to a SELECT
+   aggregate that is neither the same aggregate nor its case twin, the implementation's output is still judged by
+   the spec on the predicate as written (those calls taken as trigger-only): a wrong binding that changes a
+   decision is reported with the failing input, not only as a disagreement. *)
 let handle (toks : string list) : string =
   match Win.split_hash toks with
-  | m :: c :: outs :: pred :: bind :: rest when List.exists (fun b -> b <> "b" && b <> "t") bind ->
-      let bind' = List.map (fun b -> if b = "b" || b = "t" then b else "t") bind in
-      let sections = m :: c :: outs :: pred :: bind' :: rest in
-      let toks' = List.concat (List.mapi (fun i s -> if i = 0 then s else "#" :: s) sections) in
-      let v = handle0 toks' in
-      if String.length v >= 4 && String.sub v 0 4 = "chk " then v ^ " (and model differs: trigger_calls " ^ String.concat " " bind ^ ")"
-      else "diff trigger_calls " ^ String.concat " " bind
+  | m :: ((_ :: _ :: names) as c) :: outs :: pred :: bind :: rest ->
+      let calls = (try gw_calls (fst (parse_pred pred)) with _ -> []) in
+      let orefs = (try List.map ref_of_tok outs with _ -> []) in
+      let kinds = List.mapi (fun i b ->
+          match List.nth_opt calls i with
+          | Some a -> bind_kind names orefs a b
+          | None -> `Other) bind in
+      if List.length bind = List.length calls && not (List.mem `Other kinds) then handle0 toks
+      else begin
+        let shown = List.map2 (fun b k ->
+            if k = `Other && bind_of_tok b <> None then "misbound:" ^ b else b) bind kinds in
+        let bind' = List.map2 (fun b k -> if k = `Other then "t" else b) bind kinds in
+        let sections = m :: c :: outs :: pred :: bind' :: rest in
+        let toks' = List.concat (List.mapi (fun i s -> if i = 0 then s else "#" :: s) sections) in
+        let v = (if List.length bind = List.length calls then handle0 toks' else "diff") in
+        if String.length v >= 4 && String.sub v 0 4 = "chk " then v ^ " (and model differs: trigger_calls " ^ String.concat " " shown ^ ")"
+        else "diff trigger_calls " ^ String.concat " " shown
+      end
   | _ -> handle0 toks
 
 let () = Registry.register "C17" handle
